@@ -368,7 +368,8 @@ def topo_lines(sc: dict, sim, N, prot: List[str], info: Optional[dict] = None) -
         for p in sorted(n.network_interface):
             ni = n.network_interface[p]
             if getattr(ni, "ip_address", None) is not None and getattr(ni, "subnet_mask", None) is not None:
-                lines.append(f"t-iface {idx[h]} {1 if ni.enabled else 0} {ni.ip_address} {ni.subnet_mask}")
+                lines.append(f"t-iface {idx[h]} {1 if ni.enabled else 0} {ni.ip_address} {ni.subnet_mask} "
+                             f"{int(ni.mac_address.replace(':', ''), 16)}")
             else:
                 lines.append(f"t-iface {idx[h]} {1 if ni.enabled else 0}")
         acls = {}
@@ -389,9 +390,66 @@ def topo_lines(sc: dict, sim, N, prot: List[str], info: Optional[dict] = None) -
     for c in class_patterns(sc, info or {"a_ip": A_IP, "b_ip": "10.0.2.20"}):
         lines.append(f"t-class {o(c['proto'])} {o(c['src_ip'])} {o(c['src_wc'])} {o(c['dst_ip'])} {o(c['dst_wc'])} - -")
     lines.append(f"t-arp {1 if arp_exempt(sc) else 0}")
+    # network-level certificate (certifyN): every port is labelled with the subnet of its layer-2 segment.  The labels are
+    # computed HERE (union of wired ports, all ports of a switch); the certificate only checks them locally, so a wrong label
+    # can make it reject, never accept wrongly.
+    parent: Dict[tuple, tuple] = {}
+
+    def find(x):
+        parent.setdefault(x, x)
+        while parent[x] != x:
+            parent[x] = parent[parent[x]]
+            x = parent[x]
+        return x
+
+    for link in sim.network.links.values():
+        a, b = link.endpoint_a, link.endpoint_b
+        parent[find((a._connected_node.config.hostname, a.port_num))] = find((b._connected_node.config.hostname, b.port_num))
+    for h in names:
+        if isinstance(N[h], Switch):
+            ports = sorted(N[h].network_interface)
+            for p in ports[1:]:
+                parent[find((h, p))] = find((h, ports[0]))
+    seg_net: Dict[tuple, tuple] = {}
+    for h in names:
+        for p in sorted(N[h].network_interface):
+            ni = N[h].network_interface[p]
+            if getattr(ni, "ip_address", None) is not None and getattr(ni, "subnet_mask", None) is not None:
+                seg_net.setdefault(find((h, p)), (str(ni.ip_network.network_address), str(ni.subnet_mask)))
+    for h in names:
+        for p in sorted(N[h].network_interface):
+            net = seg_net.get(find((h, p)))
+            if net is not None:
+                lines.append(f"t-label {idx[h]} {p - 1} {net[0]} {net[1]}")
+    for h in names:
+        if roles.get(h) == "routerDeny":
+            for p in sorted(N[h].network_interface):
+                ni = N[h].network_interface[p]
+                lines.append(f"t-rtrif {int(ni.mac_address.replace(':', ''), 16)} {ni.ip_address}")
     lines.append("t-certify")
     lines.append("t-certifyC")
+    lines.append("t-certifyN")
     return lines
+
+
+def expect_certified_n(sc: dict, prot: List[str]) -> str:
+    """What `certifyN` must answer for the scenario's real post-block network: it is the hypothesis-free theorem
+    (C06_certifiedN_unchanged) exactly when the attacker side consists of hosts and switches only, no element blocks by a disabled
+    boundary interface of its own (role ifaceDown: that theorem needs SoftKeeps), and the class is a SOURCE class or everything."""
+    roles = roles_for(sc)
+    names = sorted({x for e in edges(sc) for x in e})
+    if sc["block"] in ("router_deny_dst_exact", "router_deny_three_protocols"):
+        return "uncertifiedN"
+    for h in names:
+        role = roles.get(h, "interior")
+        side = (h not in prot) or role != "interior"
+        if not side:
+            continue
+        if role == "ifaceDown":
+            return "uncertifiedN"
+        if role == "interior" and h not in ("A", "B", "C", "SW1", "SW2"):
+            return "uncertifiedN"
+    return "certifiedN-fw2" if sc["block"] == "fw_second_stage_deny" else "certifiedN"
 
 
 def apply_block(sc: dict, sim, N, info, timestep_fn):
@@ -749,7 +807,7 @@ def run(ctx: Ctx):
     for _, _, res in results:
         all_lines += res["topo"] + res["topo_ctl"]
     answers = run_driver("drv_c06", all_lines)
-    pos, cert_bad, certc_bad, ctl_bad, closure_bad = 0, [], [], [], []
+    pos, cert_bad, certc_bad, ctl_bad, closure_bad, certn_bad = 0, [], [], [], [], []
     for name, sc, res in results:
         chunk = answers[pos:pos + len(res["topo"])]
         pos += len(res["topo"])
@@ -757,25 +815,34 @@ def run(ctx: Ctx):
         pos += len(res["topo_ctl"])
         if "bad-op" in chunk or "bad-op" in chunk_ctl:
             raise RuntimeError(f"driver rejected a topology line of {name}")
-        res["certificate"] = chunk[-2]
-        res["certificateC"] = chunk[-1]
-        ok = chunk[-2] == "certified"
-        okc = chunk[-1] == "certifiedC"
+        res["certificate"] = chunk[-3]
+        res["certificateC"] = chunk[-2]
+        res["certificateN"] = chunk[-1]
+        ok = chunk[-3] == "certified"
+        okc = chunk[-2] == "certifiedC"
         ctx.count(f"net:{'certified' if ok else 'uncertified'}:{sc['block']}")
         ctx.count(f"net:{'certifiedC' if okc else 'uncertifiedC'}:{sc['block']}")
+        ctx.count(f"net:{chunk[-1].split()[0]}:{sc['block']}")
+        want_n = expect_certified_n(sc, res["protected"])
+        if chunk[-1].split()[0] != want_n:
+            certn_bad.append(f"{name} {sc['family']}/{sc['block']}: {chunk[-1]}, expected {want_n}")
+        ctx.count("net:hypothesis-free(certifiedN)" if chunk[-1] == "certifiedN" else
+                  "net:certified-with-FwSecondOK(certifiedN-fw2)" if chunk[-1] == "certifiedN-fw2" else
+                  "net:certified-with-software-hypotheses-only")
         if sc["block"] in CERTIFIABLE and not ok:
-            cert_bad.append(f"{name} {sc['family']}/{sc['block']}: {chunk[-2]}")
+            cert_bad.append(f"{name} {sc['family']}/{sc['block']}: {chunk[-3]}")
         if sc["block"] not in CERTIFIABLE and ok:
             cert_bad.append(f"{name} {sc['family']}/{sc['block']}: certified although the block is class-specific")
         if not okc:
-            certc_bad.append(f"{name} {sc['family']}/{sc['block']}: {chunk[-1]}")
+            certc_bad.append(f"{name} {sc['family']}/{sc['block']}: {chunk[-2]}")
         if chunk_ctl:
             # non-vacuity of both certificates: the same network without the block must be rejected (a scenario whose block is
             # a link that was never plugged in has no unblocked counterpart with that wire missing: its control has the wire)
-            if chunk_ctl[-2] == "certified" or chunk_ctl[-1] == "certifiedC":
-                ctl_bad.append(f"{name} {sc['family']}/{sc['block']}: unblocked network accepted ({chunk_ctl[-2]}, {chunk_ctl[-1]})")
-            ctx.count("net:unblocked-network-rejected" if not (chunk_ctl[-2] == "certified" or chunk_ctl[-1] == "certifiedC")
-                      else "net:unblocked-network-ACCEPTED")
+            acc = chunk_ctl[-3] == "certified" or chunk_ctl[-2] == "certifiedC" or chunk_ctl[-1].startswith("certifiedN")
+            if acc:
+                ctl_bad.append(f"{name} {sc['family']}/{sc['block']}: unblocked network accepted ({chunk_ctl[-3]}, {chunk_ctl[-2]}, "
+                               f"{chunk_ctl[-1]})")
+            ctx.count("net:unblocked-network-rejected" if not acc else "net:unblocked-network-ACCEPTED")
         ctx.count("net:class-closure-frames-checked", res["closure"]["ok"] + len(res["closure"]["bad"]))
         if res["closure"]["bad"]:
             closure_bad.append(f"{name} {sc['family']}/{sc['block']}: {res['closure']['bad'][0]}")
@@ -783,7 +850,9 @@ def run(ctx: Ctx):
                "; ".join(cert_bad[:5]))
     ctx.oblige("rig:R-net the proved class-aware certificate (certifyC) accepts the real post-block network of EVERY scenario",
                "correspondence", not certc_bad, "; ".join(certc_bad[:5]))
-    ctx.oblige("rig:R-net both certificates reject the same network without the block", "correspondence", not ctl_bad,
+    ctx.oblige("rig:R-net the network-level certificate (certifyN: hosts and switches modelled, no closure hypothesis) answers as "
+               "expected on the real post-block network of every scenario", "correspondence", not certn_bad, "; ".join(certn_bad[:5]))
+    ctx.oblige("rig:R-net all three certificates reject the same network without the block", "correspondence", not ctl_bad,
                "; ".join(ctl_bad[:5]))
     ctx.oblige("rig:R-net every frame put on a wire by an attacker-side node after the block is in the scenario's frame class "
                "(closure hypothesis of C06_certifiedC_unchanged)", "correspondence", not closure_bad, "; ".join(closure_bad[:5]))
